@@ -55,6 +55,7 @@ import PS.Proofs.Enum.HSSorted
 import PS.Proofs.Enum.HSPrologueTotal
 import PS.Proofs.Enum.GInst
 import PS.Proofs.Enum.UHeaps
+import PS.Proofs.Enum.UOrderCheck
 namespace PS.C03HS
 open PS PS.G PS.HS
 
@@ -486,6 +487,62 @@ example : ∀ k s s' r, UHS.HInv uE s → UHS.next uE 60 k s = some (s', r) → 
   (C03_HS_U_heaps_valid uE rfl uE_weak 60).2
 example : (UHS.take uE 60 30 (UHS.St.empty uG) []).map (fun r => (r.2.1.length, r.2.2)) = some (22, true) := by
   decide +kernel
+
+/-- **the order invariant of a non-terminal is kept by every call** (acyclic unambiguous grammar, no
+    threshold, no filter; `UHS.OHyp`: `rank` decreases along the alternatives, strict weak order,
+    `combine` monotone on the priorities of derivations, alternatives unambiguous, dict keys distinct).
+    `UHS.NTInv E s nt`: `succ[nt]` is one chain from the sentinel; its first element is
+    `max_priority[nt]` (the root of the heap built in phase 2 of `__init_non_terminal__` is the first
+    strict minimum of the scan of phase 1: tie-breaking of heapq); (I1) the arguments of every program
+    ever pushed for `nt` were popped for the non-terminals of its alternative `_keys[nt][program]`;
+    (I4) no heap element is better than a popped program, a recorded successor is not better than its
+    predecessor.  Under the precondition "the key was popped for `nt`" (`UHS.OPre`), `query(nt, key)`
+    keeps it for `nt` and for every non-terminal of smaller rank (`UHS.Below`), and returns a program
+    that is not better than the key. -/
+theorem C03_HS_U_order_step (E : UHS.Env U π) (rank : UHS.UNT U → Nat) (Good : π → Prop) (H : OHyp E rank Good)
+    (n : Nat) (s s' : UHS.St U π) (nt : UHS.UNT U) (p r : Option Prog) (hb : Base E s)
+    (hpre : OPre E rank (.query nt p) s) (h : UHS.query E n s nt p = some (s', r)) :
+    Below E rank (rank nt) s' ∧ NTInv E s' nt ∧ ∀ q, r = some q → ∀ k, p = some k → UHS.LE E nt k q := by
+  obtain ⟨a, b, _, d⟩ := big_order H (big_of_query E h) hb trivial trivial hpre
+  exact ⟨a, b, d⟩
+
+/-- **BEST-FIRST ORDER of the unambiguous-grammar machine** on ACYCLIC unambiguous grammars with SEVERAL
+    START SYMBOLS and start weights (every fuel, every number of steps): the keys
+    `adjust_priority_for_start(priority from the start symbol, start)` of the yielded programs
+    (`UHS.StartKey`; heap search: `start weight × probability from the start symbol`) are
+    non-decreasing for `<` — for heap search the probabilities are non-increasing.
+    `UHS.RHyp` = `OHyp` + the start languages are disjoint, `G.starts` is a set, no filter,
+    `adjust_priority_for_start` is monotone; all decidable on a literal grammar (`UHS.rhyp_prob`).
+    This is where findings C02-F2 / C03-F1 lived: the theorem is about the code after fix 7721229
+    (`kway = true`), the start heap being a k-way merge of the sorted enumerations of the start symbols. -/
+theorem C03_HS_U_sorted (E : UHS.Env U π) (rank : UHS.UNT U → Nat) (Good : π → Prop) (R : RHyp E rank Good)
+    (fuel k : Nat) (s' : UHS.St U π) (out : List Prog) (b : Bool)
+    (h : UHS.take E fuel k (UHS.St.empty E.G) [] = some (s', out, b)) :
+    out.Pairwise (fun p q => ∀ kp kq, StartKey E p kp → StartKey E q kq → E.ops.lt kq kp = false) :=
+  take_sorted R fuel k s' out b h
+
+/-- heap search (`UHeapSearch`, threshold 0): the yielded probabilities are non-increasing -/
+theorem C03_HS_U_sorted_prob (E : UHS.Env U Rat) (rank : UHS.UNT U → Nat) (hops : E.ops = UHS.probOps 0)
+    (R : RHyp E rank (fun v : Rat => 0 ≤ v)) (fuel k : Nat) (s' : UHS.St U Rat) (out : List Prog) (b : Bool)
+    (h : UHS.take E fuel k (UHS.St.empty E.G) [] = some (s', out, b)) :
+    out.Pairwise (fun p q => ∀ nt w pr nt' w' pr', UHS.startW E nt = some w → HasPrio E p nt pr →
+      UHS.startW E nt' = some w' → HasPrio E q nt' pr' → pr' * w' ≤ pr * w) := by
+  refine (C03_HS_U_sorted E rank _ R fuel k s' out b h).imp ?_
+  intro p q hpq nt w pr nt' w' pr' hw hpr hw' hpr'
+  have := hpq (E.ops.adjust pr w) (E.ops.adjust pr' w') ⟨nt, w, pr, hw, hpr, rfl⟩ ⟨nt', w', pr', hw', hpr', rfl⟩
+  rw [hops] at this
+  simpa [UHS.probOps, Rat.not_lt] using this
+
+def uRank (nt : UHS.UNT Nat) : Nat := nt.2
+
+theorem uE_rhyp : RHyp uE uRank (fun v : Rat => 0 ≤ v) :=
+  rhyp_prob uE uRank rfl rfl (by decide) (by decide) (by decide) (by decide) (by decide) (by decide) (by decide)
+    (by decide +kernel) (by decide) (fun _ => rfl)
+
+example : ∀ k s' out b, UHS.take uE 60 k (UHS.St.empty uG) [] = some (s', out, b) →
+    out.Pairwise (fun p q => ∀ nt w pr nt' w' pr', UHS.startW uE nt = some w → HasPrio uE p nt pr →
+      UHS.startW uE nt' = some w' → HasPrio uE q nt' pr' → pr' * w' ≤ pr * w) :=
+  fun k s' out b h => C03_HS_U_sorted_prob uE uRank rfl uE_rhyp 60 k s' out b h
 end UMachine
 
 end PS.C03HS
